@@ -65,6 +65,8 @@ def generate(rnd, tier):
 
 
 def monitor(case, obs):
+    v = lost_signals(case, obs, ideal=True) or lost_signals(case, obs)
+    if v: return v
     x = X(case, obs)
     sources = {}          # level uid -> set of source keys
     expect = {}           # sid -> expected level uid
@@ -101,6 +103,7 @@ def monitor(case, obs):
 def classify(case, obs, verdict, model):
     if model and "K1" in model.get("flags", []) and "returned with levels" in verdict: return "K1"
     if model and "K1" in model.get("flags", []) and "dispatched" in verdict: return "K1"
+    if model and "K1" in model.get("flags", []) and "(lost)" in verdict: return "K1"
     return None
 
 
